@@ -9,12 +9,13 @@ def showEv : Ev → String
   | .warn m => s!"warn{m}"
   | .returned => "ret"
 
-def parseOp (j : Json) : Except String Op := do
+def parseOp (j : Json) : Except String OpR := do
   let a ← jArr j
   match (← jStr a[0]!) with
   | "insert" => pure (.insert (← jNat a[1]!))
   | "remove" => pure (.remove (← jNat a[1]!))
-  | "extract" => pure .extract
+  | "extract" => pure (.extract [])
+  | "extractR" => pure (.extract (← (← jArr a[1]!).toList.mapM jNat))     -- these modules vanish during the scan
   | t => throw s!"bad op {t}"
 
 /-- {"mods":[[id,hasMod,hasBuiltin,modRaises,builtinRaises]...],"ops":[...]} -/
@@ -26,7 +27,7 @@ def handle (j : Json) : Except String String := do
   let st : Static := { hasModGlue := fun m => (get m).2.1, hasBuiltin := fun m => (get m).2.2.1,
                        modRaises := fun m => (get m).2.2.2.1, builtinRaises := fun m => (get m).2.2.2.2 }
   let ops ← (← jArr (← jField j "ops")).toList.mapM parseOp
-  let g := runOps st ops
+  let g := runOpsR st ops
   pure (" ".intercalate (g.log.map showEv))
 
 end SS.Drv.C17
